@@ -47,6 +47,8 @@ class Feed:
         self.born = {}              # handle -> (op, step, source)
         self.last_sub = {}          # parent handle -> (step, child handle, entry index) of its latest ADD_SUB
         self.apply_info = {}        # alias -> {'top_reps': n, 'effective': bool}
+        self.last_apply = {}        # id(structure) -> (step, handle it was applied to, info) of the latest effective unroll
+        self.last_flatten = {}      # id(structure) -> (step, handle)
 
     def probe(self, k, n=1):
         self.probes[k] = self.probes.get(k, 0) + n
@@ -187,6 +189,8 @@ class Feed:
                 self.touch(name, i)
             self.born[st["as"]] = ("APPLY", i, name)
             self.apply_info[st["as"]] = {"effective": eff, "top_reps_before": top_reps_before}
+            if eff:
+                self.last_apply[id(root)] = (i, name, {"effective": eff, "top_reps_before": top_reps_before})
         elif op == "FLATTEN":
             name = st["c"]
             root = M.roots[name]
@@ -201,6 +205,7 @@ class Feed:
             self.flags[name].add("flatten")
             self.touch(name, i)
             self.born[st["as"]] = ("FLATTEN", i, name)
+            self.last_flatten[id(root)] = (i, name)
             if had:
                 self.probe("effective-flatten")
         elif op == "SET_DUR":
@@ -376,6 +381,22 @@ def evaluate_point(desc, i, ansP, stats):
     # exports
     findings.extend(oracles.c08(full))
     findings.extend(oracles.c15(full))
+    # what the perturbed execution exported / indexed at this point is the image of the (clean) listing too
+    if isinstance(a, dict):
+        pert = []
+        base = {"LIST_TWICE": full.get("LIST_TWICE"), "COMPOSITES": full.get("COMPOSITES"), "TIMES": full.get("TIMES")}
+        if what == "STIM" and "stim" in a:
+            pert = oracles.c08(dict(base, STIM=a))
+        elif what == "OPENQL" and ("items" in a):
+            pert = oracles.c15(dict(base, OPENQL=a))
+        elif what == "ACQ" and "m" in a:
+            pert = oracles.c07(dict(base, ACQ=a), in_scope, applied)
+        elif what == "FULL":
+            pert = oracles.c08(a) + oracles.c15(a) + oracles.c07(a, in_scope, applied)
+        for f in pert:
+            if not is_known(f):
+                f["oracle"] = "perturbed:" + f["oracle"]
+                findings.append(f)
     # transitions: copy vs source, before/after unrolling and flattening
     try:
         findings.extend(transition_oracles(desc, i, st, full, feed, stats))
@@ -434,17 +455,21 @@ def transition_oracles(desc, i, st, full, feed, stats):
                 exs, fchild, _ = q_star(steps, i, {"op": "OBS", "what": "FULL", "c": child})
                 out.extend(compare_copy(full, fchild, j, "add(sub-circuit)"))
                 tp("nested-vs-child")
-    # ---- before / after unrolling
-    if born and born[0] == "APPLY" and last_mut <= born[1] and born[1] > 0:
-        info = feed.apply_info.get(name, {})
-        src = born[2]
+    # ---- before / after unrolling (whichever handle of the unrolled structure is looked at)
+    la = feed.last_apply.get(id(root))
+    if la is not None and last_mut <= la[0] and la[0] > 0:
+        info = la[2]
+        src = la[1]
+        born = ("APPLY", la[0], src)
         if info.get("effective") and info.get("top_reps_before") == 1:
             exs, pre, _ = q_star(steps, born[1], {"op": "OBS", "what": "FULL", "c": src})
             lib = id(root) in feed.pure_lib and id(root) not in feed.user_ops
             out.extend(compare_unroll(pre, full, lib))
             tp("before-after-unroll" + ("-lib" if lib else ""))
     # ---- before / after flattening (modifier-applied library circuits keep everything)
-    if born and born[0] == "FLATTEN" and last_mut <= born[1] and born[1] > 0:
+    lf = feed.last_flatten.get(id(root))
+    if lf is not None and last_mut <= lf[0] and lf[0] > 0:
+        born = ("FLATTEN", lf[0], lf[1])
         src = born[2]
         if id(root) in feed.pure_lib and id(root) not in feed.user_ops and not _struct_steps_between(steps, born[1], i):
             exs, pre, _ = q_star(steps, born[1], {"op": "OBS", "what": "FULL", "c": src})
